@@ -18,6 +18,7 @@ empty cookie, or no paging control at all) and `rest` (whatever the server would
 requests: the client must not ask).  `pre = []` is the single page; pages may be empty.
 -/
 import Ldap3V.Lemmas.StreamC16
+import Ldap3V.Lemmas.StreamBehindEo
 namespace Ldap3V.Stream
 open Spec
 
@@ -199,5 +200,74 @@ theorem C16_rejects_caller_control (size : Int) (h : Handle) (pages : List Page)
 
 example : (h : Handle) → h = { ctrls := some [.other 1, .paged 7 [1, 2]] } → (h.ctrls.getD []).any RCtl.isPaged = true := by
   intro h hh; subst hh; decide
+
+/-- PagedResults chained with EntriesOnly, in either order.  (1) For EVERY page list and every call
+sequence over {start, next, state}: the outputs are those of the cursor on ONE view, the same for
+both chain orders: the entries of the concatenated pages, reference URIs collected, intermediate
+messages dropped.  (2) Whenever such a run ends in state Done the requests issued are exactly the
+sequence C16 prescribes (`pagedRequests`: PR(size, "") first, then PR(size, cookie of page k) with
+the same other controls, options, time-out and query), and `stream.res` is the cursor's final
+result.  (3) For a well-formed answer that view is: the directory entries of `pre ++ [last]` in
+order; final result = `last`'s without its first paging control; gains = the URIs of all reference
+messages (they end up in the result's referral list, `C10_states` (4)). -/
+theorem C16_behind_entries_only (size : Int) (h : Handle) (pages : List Page) (q : Query) (calls : List Call)
+    (hh : (h.ctrls.getD []).any RCtl.isPaged = false) (hq : q.filterOk = true)
+    (hnf : ∀ k ∈ calls, k ≠ .finish) :
+    (run (init [eo, pr size] h pages) (.start q :: calls) =
+      Cursor.run (startOutcome [.entriesOnly, .paged] h q pages)
+        (Cursor.ofView (view [.entriesOnly, .paged] pages)) (.start q :: calls)) ∧
+    (run (init [pr size, eo] h pages) (.start q :: calls) =
+      Cursor.run (startOutcome [.paged, .entriesOnly] h q pages)
+        (Cursor.ofView (view [.entriesOnly, .paged] pages)) (.start q :: calls)) ∧
+    view [.paged, .entriesOnly] pages = view [.entriesOnly, .paged] pages ∧
+    (∀ chain, chain = [eo, pr size] ∨ chain = [pr size, eo] →
+      (∀ o ∈ run (init chain h pages) (.start q :: calls), o.stuck = false) →
+      (exec (init chain h pages) (.start q :: calls)).s.state = .done →
+      (exec (init chain h pages) (.start q :: calls)).s.reqs =
+        pagedRequests (pagedReq size (othersOf h) h.opts h.tmo q) [] pages) := by
+  refine ⟨(refines_eo_paged size h pages q calls hh hq hnf).1, ?_, view_comm pages, ?_⟩
+  · rw [← view_comm]; exact (refines_paged_eo size h pages q calls hh hq hnf).1
+  · intro chain hc hns hd
+    rcases hc with rfl | rfl
+    · have hR := (refines_eo_paged size h pages q calls hh hq hnf).2 hns
+      exact hR.reqsDone (by rw [← hR.state]; exact hd)
+    · have hR := (refines_paged_eo size h pages q calls hh hq hnf).2 hns
+      exact hR.reqsDone (by rw [← hR.state]; exact hd)
+
+/-- the view behind EntriesOnly for a well-formed answer -/
+theorem C16_behind_entries_only_view (pre : List PageD) (last : PageD) (rest : List Page)
+    (hpre : ∀ p ∈ pre, p.more) (hlast : last.last)
+    (hwf : ∀ i ∈ itemsOf pre last, i.kind = .ref → i.uris ≠ none) :
+    ∃ g', (view [.entriesOnly, .paged] (pagesOf pre last rest)).ending =
+        .done g' { last.res with ctrls := dropPaging last.res.ctrls } ∧
+      (view [.entriesOnly, .paged] (pagesOf pre last rest)).steps.map (·.item) =
+        (itemsOf pre last).filter (fun i => i.kind == .entry) ∧
+      (view [.entriesOnly, .paged] (pagesOf pre last rest)).steps.flatMap (·.gain) ++ g' = refUris (itemsOf pre last) :=
+  view_eo_paged_concat pre last rest hpre hlast hwf
+
+-- both chain orders on three pages with references and an intermediate message: same outputs
+example : run (init [eo, pr 2] {} (pagesOf
+      [⟨[⟨.entry, 1, none, []⟩, ⟨.ref, 2, some [[0x61]], []⟩], ⟨0, [], [⟨true, some [7], 0⟩], .server 3⟩, []⟩,
+       ⟨[⟨.inter, 8, none, []⟩], ⟨0, [], [⟨true, some [8], 0⟩], .server 4⟩, []⟩]
+      ⟨[⟨.ref, 9, some [[0x62]], []⟩, ⟨.entry, 5, none, []⟩], ⟨0, [[0x63]], [⟨true, some [], 0⟩], .server 6⟩, []⟩ []))
+    [.start ⟨1, true⟩, .next, .next, .next, .finish] =
+    [.started .ok, .item (.ok (some ⟨.entry, 1, none, []⟩)), .item (.ok (some ⟨.entry, 5, none, []⟩)), .item (.ok none),
+     .result ⟨0, [[0x63], [0x61], [0x62]], [], .server 6⟩] ∧
+  run (init [pr 2, eo] {} (pagesOf
+      [⟨[⟨.entry, 1, none, []⟩, ⟨.ref, 2, some [[0x61]], []⟩], ⟨0, [], [⟨true, some [7], 0⟩], .server 3⟩, []⟩,
+       ⟨[⟨.inter, 8, none, []⟩], ⟨0, [], [⟨true, some [8], 0⟩], .server 4⟩, []⟩]
+      ⟨[⟨.ref, 9, some [[0x62]], []⟩, ⟨.entry, 5, none, []⟩], ⟨0, [[0x63]], [⟨true, some [], 0⟩], .server 6⟩, []⟩ []))
+    [.start ⟨1, true⟩, .next, .next, .next, .finish] =
+    [.started .ok, .item (.ok (some ⟨.entry, 1, none, []⟩)), .item (.ok (some ⟨.entry, 5, none, []⟩)), .item (.ok none),
+     .result ⟨0, [[0x63], [0x61], [0x62]], [], .server 6⟩] := by decide +kernel
+
+/-
+NOT proved (stated for the record): for the two chains with EntriesOnly the closed-form theorems
+`C16_entries` / `C16_final_has_no_paging_control` (outputs of `replicate n next` and of the final
+`finish()` written out for `pagesOf pre last rest`).  They follow from `C16_behind_entries_only`
+(1), (2) and `C16_behind_entries_only_view` by the same cursor computation as for `[PagedResults]`
+(`Cursor.run_nexts_done`); the final result there is `last.res` without its first paging control and
+with `refs := last.res.refs ++ refUris (itemsOf pre last)`.
+-/
 
 end Ldap3V.Stream
